@@ -470,6 +470,29 @@ func regFindTok(pool []*regFile, r *protoregistry.Files, name string) string {
 	return "f:" + regKind(d) + ":" + regFileID(pool, d.ParentFile()) + ":" + regHexS(string(d.FullName()))
 }
 
+// regFindSound: a successful FindDescriptorByName(n) returns a descriptor whose full name is n
+// and which is a declaration of a file of the pool (soundness half of the lookup property).
+func regFindSound(c *Ctx, pool []*regFile, r *protoregistry.Files, name string) {
+	d, err := r.FindDescriptorByName(protoreflect.FullName(name))
+	if err != nil {
+		return
+	}
+	if string(d.FullName()) != name {
+		c.PropFail("C33", "FindDescriptorByName returned a descriptor with another full name", regHexS(name), regHexS(string(d.FullName())))
+		return
+	}
+	for _, f := range pool {
+		if f.fd == d.ParentFile() {
+			for _, x := range f.decls {
+				if x == d {
+					return
+				}
+			}
+		}
+	}
+	c.PropFail("C33", "FindDescriptorByName returned a descriptor that is no declaration of a known file", regHexS(name))
+}
+
 // regProbe is the fixed probe set of predicate (a): every lookup / count observation.
 func regProbe(pool []*regFile, r *protoregistry.Files, names []string) []any {
 	var out []any
@@ -608,12 +631,36 @@ func regRunFiles(c *Ctx, pool []*regFile, script []int) {
 			if r.NumFiles() != len(okIDs) || regIDList(ids, true) != regIDList(append([]int(nil), okIDs...), true) {
 				c.PropFail("C33", "NumFiles/RangeFiles differ from the successful registrations", strings.Join(ins, " "), op)
 			}
+			// ... and per package, in registration order
+			for _, pk := range regPkgs {
+				var want, got []int
+				for _, j := range okIDs {
+					if string(pool[j].fd.Package()) == pk {
+						want = append(want, j)
+					}
+				}
+				r.RangeFilesByPackage(protoreflect.FullName(pk), func(fd protoreflect.FileDescriptor) bool {
+					id, _ := strconv.Atoi(regFileID(pool, fd))
+					got = append(got, id)
+					return true
+				})
+				if r.NumFilesByPackage(protoreflect.FullName(pk)) != len(want) || regIDList(got, false) != regIDList(want, false) {
+					c.PropFail("C33", "NumFilesByPackage/RangeFilesByPackage differ from the successful registrations", strings.Join(ins, " "), op, regHexS(pk))
+				}
+			}
+			// FindFileByPath finds exactly the registered paths
+			for _, j := range okIDs {
+				if fd, err := r.FindFileByPath(pool[j].fd.Path()); err != nil || fd != pool[j].fd {
+					c.PropFail("C33", "FindFileByPath does not find a registered file", strings.Join(ins, " "), op)
+				}
+			}
 		default:
 			switch k := c.Intn(10); {
 			case k < 5:
 				n := names[c.Intn(len(names))]
 				op = "find:" + regHexS(n)
 				ob = regFindTok(pool, r, n)
+				regFindSound(c, pool, r, n)
 				c.Stat("files:find:" + strings.SplitN(ob, ":", 3)[0] + ":" + func() string {
 					if p := strings.SplitN(ob, ":", 3); len(p) > 1 {
 						return p[1]
@@ -696,6 +743,7 @@ func regRunFilesExhaustive(c *Ctx, pool []*regFile, regs []int) {
 	for _, n := range names {
 		ins = append(ins, "find:"+regHexS(n))
 		obs = append(obs, regFindTok(pool, r, n))
+		regFindSound(c, pool, r, n)
 		ins = append(ins, "numpkg:"+regHexS(n))
 		obs = append(obs, strconv.Itoa(r.NumFilesByPackage(protoreflect.FullName(n))))
 	}
@@ -927,6 +975,9 @@ func regRunTypes(c *Ctx, pool []*regFile, nops int) {
 			op = "findurl:" + regHexS(n)
 			t, err := r.FindMessageByURL(n)
 			if err == nil {
+				if want := n[strings.LastIndexByte(n, '/')+1:]; string(t.Descriptor().FullName()) != want {
+					c.PropFail("C33", "FindMessageByURL returned a message whose name is not the URL's last segment", regHexS(n))
+				}
 				ob = found(t.Descriptor(), nil)
 			} else {
 				ob = found(nil, err)
